@@ -11,6 +11,9 @@
 //!   `c17.cmsk h<utf-8>`   `CallMemberStateKey::from_str` → `ok uud|ud|u h<user> h<device>|-` | `err`
 //!   `c17.lang h<utf-8>`   `ElementData::to_matrix` of `<code class=VALUE>` → `ok none|h<language> t|f`
 //!   `c17.tag h<utf-8>`    `TagName::from(s).display_name()` → `ok h<name>`
+//!   `c17.word e|d h<text> h<pattern>`  the literal branch of `matches_word_impl`, reached through
+//!        `PushCondition::EventMatch` on `content.body` (`e`; pattern without `*`/`?`) or
+//!        `PushCondition::ContainsDisplayName` (`d`); both strings are lower-case already → `ok t|f`
 //!   `c17.plain h<utf-8>`  `remove_plain_reply_fallback(s)` → `ok h<text>`
 use h_lib::{h_util, Outcome, Req, Rng};
 
@@ -127,6 +130,37 @@ fn lang_real(value: &str) -> Outcome {
     Outcome::new(format!("ok {lang} {}", if m.attrs.is_empty() { "f" } else { "t" }))
 }
 
+fn word_real(mode: &str, text: &str, pat: &str) -> Outcome {
+    use ruma_common::{
+        push::{FlattenedJson, PushCondition, PushConditionRoomCtx},
+        serde::Raw,
+    };
+    if text.to_lowercase() != text || pat.to_lowercase() != pat {
+        return Outcome::bad();
+    }
+    let ev = serde_json::json!({ "sender": "@a:h", "content": { "body": text } }).to_string();
+    let raw: Raw<serde_json::Value> = Raw::from_json_string(ev).unwrap();
+    let flat = FlattenedJson::from_raw(&raw);
+    let mut ctx = PushConditionRoomCtx {
+        room_id: ruma_common::owned_room_id!("!r:h"),
+        member_count: js_int::uint!(3),
+        user_id: ruma_common::owned_user_id!("@me:h"),
+        user_display_name: String::new(),
+        power_levels: None,
+    };
+    let cond = match mode {
+        "e" if !pat.contains(['*', '?']) => {
+            PushCondition::EventMatch { key: "content.body".to_owned(), pattern: pat.to_owned() }
+        }
+        "d" => {
+            ctx.user_display_name = pat.to_owned();
+            PushCondition::ContainsDisplayName
+        }
+        _ => return Outcome::bad(),
+    };
+    Outcome::new(if cond.applies(&flat, &ctx) { "ok t" } else { "ok f" })
+}
+
 fn str_op(h: &str, f: impl FnOnce(&str) -> Outcome) -> Outcome {
     match unh(h).and_then(|b| String::from_utf8(b).ok()) {
         Some(s) => f(&s),
@@ -142,6 +176,7 @@ pub fn run(toks: &[&str]) -> Option<Outcome> {
             let t = ruma_events::tag::TagName::from(s);
             Outcome::new(format!("ok {}", hx(t.display_name().as_bytes())))
         })),
+        ["c17.word", mode, hs, hp] => Some(str_op(hs, |s| str_op(hp, |p| word_real(mode, s, p)))),
         ["c17.plain", h] => Some(str_op(h, |s| {
             let r = ruma_events::room::message::sanitize::remove_plain_reply_fallback(s);
             Outcome::new(format!("ok {}", hx(r.as_bytes())))
@@ -393,9 +428,48 @@ fn gen_strs(rng: &mut Rng, tier: &str, n: usize, v: &mut Vec<Req>) {
     }
 }
 
+fn gen_word(rng: &mut Rng, tier: &str, n: usize, v: &mut Vec<Req>) {
+    let wreq = |mode: &str, s: &str, p: &str, cls: &str| {
+        Req::new(format!("c17.word {mode} {} {}", hx(s.as_bytes()), hx(p.as_bytes())), cls)
+    };
+    // every text of at most k characters against every pattern of one or two characters, over one-,
+    // two-, three- and four-byte characters, a word character, `_` and a separator
+    const ALPHA: &[&str] = &["a", "_", " ", "é", "\u{1f600}"];
+    let mut pats: Vec<String> = Vec::new();
+    all_piece_strings(ALPHA, 2, |p| pats.push(p));
+    let k = if tier == "thorough" { 5 } else { 3 };
+    let mut texts: Vec<String> = Vec::new();
+    all_piece_strings(ALPHA, k, |t| texts.push(t));
+    for t in &texts {
+        for p in &pats {
+            v.push(wreq("e", t, p, "word.exh"));
+        }
+    }
+    const TEXT: &[&str] = &[
+        "hello", "me", "myself", " ", "  ", ".", ",", "-", "_", "é", "€", "\u{1f600}", "\n", "me_", "_me", "1", "a", "b", "ab",
+        "me myself", "x*y", "?", "*", "ß", "ǆ", "", "\u{301}",
+    ];
+    const PAT: &[&str] = &["me", "myself", "a", "b", "ab", " ", "_", "é", "€", "\u{1f600}", ".", "me ", " me", "1", "ß", "", "-"];
+    for _ in 0..n {
+        let t = piece_string(rng, TEXT, 7).to_lowercase();
+        let p = piece_string(rng, PAT, 2).to_lowercase();
+        // lower-casing is idempotent for everything the pieces and the mutations can produce
+        if t.to_lowercase() != t || p.to_lowercase() != p {
+            continue;
+        }
+        if rng.chance(1, 2) && !p.contains(['*', '?']) {
+            v.push(wreq("e", &t, &p, "word.rand"));
+        } else {
+            let star = if rng.chance(1, 4) { rng.pick(&["*", "?", "a*", "?b"]).to_string() } else { String::new() };
+            v.push(wreq("d", &t, &format!("{p}{star}"), "word.rand"));
+        }
+    }
+}
+
 /// All requests of the modelled scanners. `n` is the size of the random part of the run.
 pub fn gen(rng: &mut Rng, n: usize, tier: &str, v: &mut Vec<Req>) {
     let m = (n / 8).max(200);
     gen_mp(rng, tier, m, v);
     gen_strs(rng, tier, m, v);
+    gen_word(rng, tier, m, v);
 }
